@@ -452,6 +452,15 @@ impl ExactSizeIterator for OpaquePoolIterator<'_> {
 
 impl FusedIterator for OpaquePoolIterator<'_> {}
 
+#[cfg(folo_verif)]
+impl OpaquePool {
+    /// Verification hook: read-only snapshot of the inner pool's bookkeeping.
+    #[must_use]
+    pub fn verif_probe(&self) -> crate::verif::PoolProbe {
+        self.inner.lock().expect(NEVER_POISONED).verif_probe()
+    }
+}
+
 #[cfg(test)]
 #[cfg_attr(coverage_nightly, coverage(off))]
 mod tests {
